@@ -399,7 +399,14 @@ class FakeTRX(Transceiver):
 		elif self.ctrl_if.verify_cmd(request, "FAKE_TRXC_DELAY", 1):
 			log.debug("(%s) Recv FAKE_TRXC_DELAY cmd", self)
 
-			self.ctrl_if.rsp_delay_ms = int(request[1])
+			# Parse / validate the delay (shall fit uint32_t,
+			# time.sleep() raises OverflowError on huge values)
+			delay_ms = int(request[1])
+			if delay_ms > 0xffffffff:
+				log.error("(%s) FAKE_TRXC_DELAY value is too big" % self)
+				return -1
+
+			self.ctrl_if.rsp_delay_ms = delay_ms
 			log.info("(%s) Artificial TRXC delay set to %d",
 				 self, self.ctrl_if.rsp_delay_ms)
 
